@@ -143,7 +143,7 @@ def spec_hash(spec):
 
 
 def shard(ctx):
-    ctx.run_hypothesis(cases(), lambda case: check(ctx, case), ctx.scale(2400, 40000))
+    ctx.run_hypothesis(cases(), lambda case: check(ctx, case), ctx.scale(9000, 60000))
 
 
 def replay(ctx, case):
